@@ -54,7 +54,8 @@ MANIFEST = {
                    "chain); nobody is started; every actor is STILL registered at return (the code's real guarantee) and "
                    "unregistered once death watch has handled the Terminated it was sent (deleteNode_unregisters, "
                    "drain_unregisters). The stop model is tied to a REAL started actor system by scripted scenarios "
-                   "(Shutdown, PoisonPill, parent.Stop, Kill, Restart, system Stop on trees of depth <= 3, width <= 3): "
+                   "(Shutdown, PoisonPill, parent.Stop, Kill, Restart, system Stop on trees of depth <= 3, width <= 3, with actors "
+                   "suspended by a real failure): "
                    "same actors stopped, same Terminated counts, same registered set once death watch is quiescent; the "
                    "oracle checks children-first PostStop order, exactly-once, nothing running at return, nothing "
                    "registered or resolvable once death watch has handled its Terminated messages."),
@@ -240,6 +241,7 @@ class _Scn:
         self.parent = {}
         self.kids = {}
         self.running = set()
+        self.suspended = set()  # failed and parked by supervision: alive (running bit set) but not IsRunning()
         self.order = []  # spawn order
 
     def spawn(self, x, parent=None):
@@ -269,6 +271,14 @@ class _Scn:
 
     def depth(self, x):
         return len(self.ancestors(x))
+
+    def stop(self, x):
+        for y in self.sub(x):
+            self.running.discard(y)
+            self.suspended.discard(y)
+
+    def usable(self, x):
+        return x in self.running and x not in self.suspended
 
     def related(self, a, b):
         return a == b or a in self.ancestors(b) or b in self.ancestors(a)
@@ -313,6 +323,15 @@ def _gen_sys_case(rng, max_nodes, with_restart=True):
                 if rng.random() < 0.3:
                     body.append(f"W:{w}:{y}")
     ops += body
+    # some actors fail and are suspended by supervision (alive, not IsRunning) before the stops
+    if rng.random() < 0.4:
+        for x in rng.sample(names, min(len(names), rng.randint(1, 2))):
+            ops.append(f"F:{x}")
+            sc.suspended.add(x)
+            if rng.random() < 0.5:
+                w = rng.choice(names)
+                if watch_ok(w, x):
+                    ops.append(f"W:{w}:{x}")
     nstops = rng.randint(1, 3)
     for i in range(nstops):
         live = [x for x in names if x in sc.running]
@@ -320,19 +339,19 @@ def _gen_sys_case(rng, max_nodes, with_restart=True):
             break
         x = rng.choice(live)
         r = rng.random()
-        if with_restart and r < 0.15:
+        has_susp = any(y in sc.suspended for y in sc.sub(x))
+        if with_restart and r < 0.15 and not has_susp:
             ops.append(f"R:{x}")
             continue
-        if r < 0.45:
+        if r < 0.45 or (x in sc.suspended and r < 0.65):
             ops.append(f"K:{x}")
         elif r < 0.65:
             ops.append(f"P:{x}")
-        elif r < 0.8 and sc.parent[x] is not None:
+        elif r < 0.8 and sc.parent[x] is not None and sc.usable(sc.parent[x]):
             ops.append(f"T:{sc.parent[x]}:{x}")
         else:
             ops.append(f"Q:{x}")
-        for y in sc.sub(x):
-            sc.running.discard(y)
+        sc.stop(x)
         if rng.random() < 0.15:
             ops.append(f"K:{x}")  # stopping a stopped actor is a no-op
         if rng.random() < 0.1:
@@ -357,6 +376,10 @@ def _resolve_cases():
 
 
 SYS_FIXED = [
+    # suspended actors (failed, no supervisor directive) are stopped with their subtree like any other
+    "sys S:a1 C:a1:a2 C:a2:a3 S:a4 F:a2 W:a4:a2 K:a1",
+    "sys S:a1 C:a1:a2 F:a2 T:a1:a2 C:a2:a3",
+    "sys S:a1 C:a1:a2 C:a1:a3 F:a1 F:a3 Q:a1",
     "sys S:a1 C:a1:a2 C:a1:a3 C:a2:a4 S:a5 W:a5:a2 W:a5:a4 K:a1",
     "sys S:a1 C:a1:a2 C:a2:a3 C:a3:a4 P:a2",
     "sys S:a1 C:a1:a2 C:a1:a3 C:a1:a4 C:a2:a5 C:a2:a6 C:a3:a7 Z",
@@ -443,16 +466,18 @@ def _replay_sys(case):
         if f[0] == "S":
             sc.spawn(f[1])
         elif f[0] == "C":
-            if f[1] in sc.running:
+            if sc.usable(f[1]):
                 sc.spawn(f[2], f[1])
+        elif f[0] == "F":
+            if sc.usable(f[1]):
+                sc.suspended.add(f[1])
         elif f[0] in ("K", "P", "Q"):
-            for y in sc.sub(f[1]):
-                sc.running.discard(y)
+            sc.stop(f[1])
         elif f[0] == "T":
-            for y in sc.sub(f[2]):
-                sc.running.discard(y)
+            sc.stop(f[2])
         elif f[0] == "Z":
             sc.running.clear()
+            sc.suspended.clear()
 
 
 def _inconclusive(impl):
@@ -657,7 +682,7 @@ def shrink(case):
     if f[0] == "sys":
         ops = f[1:]
         for i in range(len(ops) - 1, -1, -1):
-            if ops[i][0] in "WUKPQTRZ" and len(ops) > 1:
+            if ops[i][0] in "WUKPQTRZF" and len(ops) > 1:
                 yield " ".join(["sys"] + ops[:i] + ops[i + 1:])
         return
     if f[0] != "tree":
